@@ -143,7 +143,7 @@ where
 }
 
 const OPS: &[&str] = &[
-    "new", "push", "extend", "blen", "build", "clone", "reload", "len", "len_trait", "is_empty", "get",
+    "new", "push", "extend", "blen", "print_stats", "build", "clone", "reload", "len", "len_trait", "is_empty", "get",
     "get_unchecked", "get_in_place", "iter", "into_iter", "iter_from", "into_iter_from", "lend",
     "into_lender", "lend_from", "index_of", "contains", "mem_size",
 ];
@@ -245,6 +245,11 @@ pub fn run(ep: &Value, ctx: &mut Ctx) {
             },
             "blen" => match &st {
                 St::Builder(b) => guard(|| b.len()).map(|r| json!({"res": r})),
+                _ => Err("na".into()),
+            },
+            // diagnostic output on stdout (captured by the runner, never read)
+            "print_stats" => match &st {
+                St::Builder(b) => guard(|| b.print_stats()).map(|_| json!({})),
                 _ => Err("na".into()),
             },
             "build" => match std::mem::replace(&mut st, St::None) {
